@@ -4,7 +4,7 @@ import numpy as np
 
 from .number import Sym, SymBool, SymError, as_sym, ctx, _lift
 
-REPO_SRC = "/repo/src/spectrum"
+from .paths import REPO_PKG as REPO_SRC
 
 _HANDLERS = {}
 SHADOW = {}      # shadowed builtins (float/complex/int replacements) -> dtype kind
